@@ -13,6 +13,7 @@ REGISTRY = {
     "C02": ("checks.ledger_checks", "c02"),
     "C03": ("checks.ledger_checks", "c03"),
     "C09": ("checks.ledger_checks", "c09"),
+    "C10": ("checks.ledger_checks", "c10"),
     "C11": ("checks.ledger_checks", "c11"),
     "C06": ("checks.calls_checks", "c06"),
     "C07": ("checks.calls_checks", "c07"),
